@@ -10,13 +10,17 @@ from ropt.results import FunctionResults, Results
 def _get_new_optimal_result(
     optimal_result: FunctionResults | None, results: FunctionResults
 ) -> FunctionResults | None:
+    assert results.functions is not None
+    objective = results.functions.weighted_objective
+    # A result with an undefined objective is never optimal, and must not block
+    # later results by making all comparisons fail:
+    if np.isnan(objective):
+        return None
     if optimal_result is None:
         return results
     assert optimal_result.functions is not None
-    assert results.functions is not None
     optimal = optimal_result.functions.weighted_objective
-    objective = results.functions.weighted_objective
-    if objective < optimal:
+    if np.isnan(optimal) or objective < optimal:
         return results
     return None
 
